@@ -230,7 +230,7 @@ def _kernel_for_map(env, K, kind, ls):
     raise ValueError(kind)
 
 
-def h_map_additive(env, kind, nctrl=2, mapper="additive"):
+def h_map_additive(env, kind, nctrl=2, mapper="additive", ctrl="symbolic"):
     """get_mapped_gp_evaluator_additive: the spline grids cover the bounds of the features they are evaluated on, and at every
     tensor-grid node  const + sum_t scale_t * f_t[node]  equals the GP predictive function  sum_a k(x_node, x_a) alpha_a"""
     import contextlib
@@ -241,7 +241,16 @@ def h_map_additive(env, kind, nctrl=2, mapper="additive"):
     bounds = [(Fraction(0), Fraction(1)), (Fraction(-1), Fraction(1)), (Fraction(1, 2), Fraction(5, 2))]
     flist = td.FeatureList([td.UMap(i, env.const(Fraction(1, 4)), bounds=(env.const(b[0]), env.const(b[1]))) for i, b in enumerate(bounds)])
     kern, ntot = _kernel_for_map(env, K, kind, ls)
-    Xc = env.arr("Xc", (nctrl, ntot), lo="-4", hi="4")
+    if ctrl == "clustered":
+        # concrete control points well inside the feature bounds: the grids must still span the bounds (the evaluator is used on the
+        # whole bounded feature domain), and concrete values keep any arithmetic the mapper does on them out of the path explorer
+        vals = [[Fraction(2, 5), Fraction(1, 10), Fraction(6, 5)], [Fraction(3, 5), Fraction(-1, 5), Fraction(8, 5)], [Fraction(1, 2), Fraction(0), Fraction(7, 5)]]
+        Xc = env.zeros((nctrl, ntot))
+        for a in range(nctrl):
+            for j in range(ntot):
+                Xc[a, j] = env.const(vals[a][j])
+    else:
+        Xc = env.arr("Xc", (nctrl, ntot), lo="-4", hi="4")
     al = env.arr("alpha", (nctrl,), lo="-4", hi="4")
     saved = _map_stubs(mt)
     try:
@@ -324,6 +333,8 @@ def tasks(tier):
         out.append(Task("map_additive/%s" % kind, h_map_additive, dict(kind=kind), mods="kernels"))
     for kind in ("const*rbf", "const*srbf_list"):
         out.append(Task("map_simple/%s" % kind, h_map_additive, dict(kind=kind, mapper="simple"), mods="kernels"))
+    out.append(Task("map_additive/srbf0*sarbf_tail/clustered_control_points", h_map_additive, dict(kind="srbf0*sarbf_tail", ctrl="clustered"), mods="kernels"))
+    out.append(Task("map_simple/const*rbf/clustered_control_points", h_map_additive, dict(kind="const*rbf", mapper="simple", ctrl="clustered"), mods="kernels"))
     for name in ("DiffARBFV2", "DiffAddLLRBF", "DiffAddRQ"):
         out.append(Task("k0_for_mapping/%s" % name, h_k0_for_mapping, dict(name=name), mods="kernels"))
     return out
